@@ -246,7 +246,39 @@ def run_interval(prop, tier, seed, ctx):
 
 
 # ------------------------------------------------------------------------------------------------ pipelines (C06)
-def gen_pipe(rnd, depth, allow_inf=False):
+def est_len(desc):
+    """upper bound of the number of items a program text delivers (None: unbounded)"""
+    toks = desc.replace("(", " ( ").replace(")", " ) ").split()
+    pos = [0]
+    def parse():
+        t = toks[pos[0]]; pos[0] += 1
+        if t != "(":
+            return t
+        out = []
+        while toks[pos[0]] != ")":
+            out.append(parse())
+        pos[0] += 1
+        return out
+    def ev(x):
+        h = x[0]
+        if h == "src": return int(x[1])
+        if h == "inf": return None
+        if h in ("map", "filter", "scan", "skip"): return ev(x[-1])
+        if h == "take":
+            c = ev(x[2]); return int(x[1]) if c is None else min(int(x[1]), c)
+        if h == "concat":
+            cs = [ev(c) for c in x[1:]]; return None if None in cs else sum(cs)
+        if h == "twice":
+            c = ev(x[1]); return None if c is None else 2 * c
+        if h == "flatmap":
+            c = ev(x[3])
+            if c is None: return None
+            return c * c if x[1] == "self" else c * min(int(x[2]), 3 if x[1] == "tri" else 10 ** 9)
+        raise ValueError(h)
+    return ev(parse())
+
+
+def gen_pipe(rnd, depth, allow_inf=False, reuse_ok=True):
     """random pipeline description (see harness/src/pipe.rs); `allow_inf`: this position is under a take, unbounded sources allowed"""
     def source():
         r = rnd.random()
@@ -258,21 +290,24 @@ def gen_pipe(rnd, depth, allow_inf=False):
     p = source() if depth == 0 or rnd.random() < 0.15 else None
     if p is None:
         kind = rnd.choice(["chain", "chain", "chain", "concat", "flatmap"])
-        if rnd.random() < 0.08:
+        if reuse_ok and rnd.random() < 0.08:
             kind = "reuse"      # one source VALUE subscribed more than once inside a program (sequentially: twice; overlapping: flatmap self)
         if kind == "reuse":
-            q = gen_pipe(rnd, min(depth - 1, 2))
+            # not nested (sizes square), and over a value of at most 60 items: a program of the stream delivers at most a few thousand items
+            q = gen_pipe(rnd, min(depth - 1, 2), reuse_ok=False)
+            while (est_len(q) or 10 ** 9) > 60:
+                q = gen_pipe(rnd, min(depth - 1, 2), reuse_ok=False)
             p = f"(twice {q})" if rnd.random() < 0.4 else f"(flatmap self {rnd.choice([10, 100, -1, 0])} {q})"
         elif kind == "concat":
-            members = [gen_pipe(rnd, depth - 1) if rnd.random() < 0.7 else "(src 0)" for _ in range(rnd.randint(2, 4) if rnd.random() < 0.85 else rnd.randint(5, 7))]
+            members = [gen_pipe(rnd, depth - 1, reuse_ok=reuse_ok) if rnd.random() < 0.7 else "(src 0)" for _ in range(rnd.randint(2, 4) if rnd.random() < 0.85 else rnd.randint(5, 7))]
             p = "(concat " + " ".join(members) + ")"
         elif kind == "flatmap":
             fam = rnd.choice(['rep', 'tri'])       # `tri K` uses take(K): K >= 1 (take(0) is outside the property: n >= 1)
-            p = f"(flatmap {fam} {rnd.randint(0 if fam == 'rep' else 1, 3)} {gen_pipe(rnd, depth - 1)})"
+            p = f"(flatmap {fam} {rnd.randint(0 if fam == 'rep' else 1, 3)} {gen_pipe(rnd, depth - 1, reuse_ok=reuse_ok)})"
         else:
-            p = gen_pipe(rnd, depth - 1, allow_inf)
+            p = gen_pipe(rnd, depth - 1, allow_inf, reuse_ok)
     elif depth > 0 and allow_inf and rnd.random() < 0.5:
-        p = gen_pipe(rnd, depth - 1, True)
+        p = gen_pipe(rnd, depth - 1, True, reuse_ok)
     inf_inside = "(inf" in p
     for _ in range(rnd.randint(0, 3)):
         st = rnd.choice(["map", "filter", "scan", "take", "skip"])
@@ -418,7 +453,8 @@ def run_tracing(prop, tier, seed, ctx):
         res["coverage"]["samples"] = [dict(default=recs[0][0], tracing_with_subscriber=recs[2][0] if recs[2] else None)]
     res["coverage"]["rule"] = ("every sequential script of this run replayed on three builds (default; `tracing` without and with a subscriber installed), "
                                "recordings compared event for event, including the number of invocations of map's closure (`#f=`), which sits inside a "
-                               "message expression of call!; distinct_nontrivial = distinct scripts")
+                               "message expression of call!, and — for the from_iter instances — how often the user's iterable is cloned and advanced "
+                               "(`ProbeIter`, also in `#f=`); distinct_nontrivial = distinct scripts")
     return res
 
 
